@@ -409,7 +409,7 @@ def hypothesis_shard(item: dict[str, Any]) -> Collector:
                                 "voff": [draw(st.sampled_from([0.0, 0.25])) for _ in range(n)],
                                 "oscale": [draw(st.sampled_from([2.0, 0.5])) for _ in range(k_n)],
                                 "cscale": [draw(st.sampled_from([4.0, 0.25])) for _ in range(c_n)]}
-        inv = draw(st.integers(0, 23))
+        inv = draw(st.sampled_from([*range(24), 3, 5, 5]))
         if inv == 0:
             case["invalid"] = "variable lower bound above upper bound"
             config["variables"]["lower_bounds"] = [9.0] * n
@@ -425,12 +425,16 @@ def hypothesis_shard(item: dict[str, Any]) -> Collector:
         elif inv == 3 and l_n:  # noqa: PLR2004
             case["invalid"] = "linear coefficient matrix of wrong width"
             config["linear_constraints"]["coefficients"] = [[1.0] * (n + 1) for _ in range(l_n)]
+            if draw(st.booleans()):  # (also when a variable scaler gets to see the matrix first)
+                case["transforms"] = "v"
         elif inv == 4 and n > 1:  # noqa: PLR2004
             case["invalid"] = "magnitudes of wrong length"
             config["gradient"]["perturbation_magnitudes"] = [0.1] * (n + 1)
         elif inv == 5 and l_n and n > 1:  # noqa: PLR2004
             case["invalid"] = "linear coefficient matrix with a single column (broadcastable, but not n columns)"
             config["linear_constraints"]["coefficients"] = [[1.0] for _ in range(l_n)]
+            if draw(st.integers(0, 3)) > 0:
+                case["transforms"] = "v"
         elif inv == 6 and n > 1:  # noqa: PLR2004
             case["invalid"] = "boundary types of wrong length"
             config["gradient"]["boundary_types"] = [1] * (n + 1)
